@@ -7,7 +7,8 @@ CHECK = {'level': 'model_checking',
          'standby term/root); in every state: while sealed every operation fails with the sealed error and no key '
          'material is held, wrong/partial/previous keys leave it sealed, every entry reads back, new writes carry the '
          'newest term, the standby equals the active after the upgrade path. C: crash after every physical write of '
-         'Rotate/RotateRootKey (barrier) and of rekey / root rotation / key rotation (Core), restart, unseal with old '
+         'Rotate/RotateRootKey (barrier) and of rekey / root rotation (share-less and share-based to another '
+         'threshold) / key rotation (Core), restart, unseal with old '
          'or new key material, read everything back. HA: every history (depth 3/4) over write / rotate / rotate-root / '
          'rekey (rotation API and deprecated API) / fail-over / restart on two real Cores sharing one store and one HA '
          'lock; after every step the active node reads everything back and writes under the newest term, the node that '
